@@ -54,6 +54,13 @@ def stmt_kinds(body):
 
 
 def compare_bodies(ctx, base, replay, before, after, what):
+    if base.get("documented_return_default_fills_empty_return"):
+        # the interface documents a return default and the body returns nothing (bare `return` / no return at the end):
+        # emitting that default as the returned value is the interface speaking, not the body being altered
+        def _drop(body):
+            return body[:-1] if body and isinstance(body[-1], ast.Return) else body
+        before, after = _drop(list(before)), _drop(list(after))
+        ctx.event("bodies_compared_without_the_filled_in_return")
     db, da = [ast.dump(s) for s in before], [ast.dump(s) for s in after]
     ctx.event("bodies_compared:" + what)
     if db == da:
@@ -132,6 +139,8 @@ def one_function(ctx, spec):
     base = {"op": OP, "kind": "function", "fn_kind": spec.kind, "has_doc": spec.has_doc, "has_return_stmt": spec.ret_expr is not None,
             "return_class": rc,
             "has_ret_doc": spec.has_ret_doc, "ret_ann": spec.ret_ann is not None,
+            "ret_doc_states_default": bool(spec.get("ret_doc_states_default")),
+            "documented_return_default_fills_empty_return": bool(spec.get("ret_doc_states_default")) and spec.ret_expr in (None, ""),
             "has_nested_def": "FunctionDef" in kinds, "has_lambda": "lambda" in spec.src, "has_early_return": "If" in kinds}
     replay = {"what": "function", "src": spec.src, "spec": dict(spec)}
     ctx.case((kinds, spec.kind, spec.has_doc, spec.ret_expr, len(spec.params)), nontrivial=bool(before),
